@@ -1,4 +1,8 @@
 """C06 / C09 — security policy gate (P-stub) and rule semantics (B)."""
+POL = 'bus/policy.c'
+LIST = 'dbus/dbus-list.c'
+STR = 'dbus/dbus-string.c'
+
 UNITS = [
     dict(name='C06.gate', props=['C06', 'C09'], kind='P', route='stub', bus=True,
          tus=[dict(file='bus/bus.c', include_as='VERIF_TU')], harness='harness/c06_gate.c',
@@ -11,3 +15,51 @@ UNITS = [
                     dict(name='bus_selinux_allows_send/bus_apparmor_allows_send', file='bus/selinux.c, bus/apparmor.c', status='assumed', note='arbitrary verdict; error set on denial')],
          assumptions=['LSM hooks (SELinux/AppArmor) return an arbitrary verdict and set the error when denying']),
 ]
+
+# ---- rule semantics against dbus-daemon(1): spec/policy_ref.h ---------------------------------------------------
+RULE_STUBS = [
+    dict(name='dbus_message_get_type/_path/_interface/_member/_error_name/_destination/_reply_serial, _dbus_message_get_n_unix_fds',
+         file='dbus/dbus-message.c', status='stub', note='contract: returns the corresponding field of the symbolic message-facts record (NULL = header field absent)'),
+    dict(name='dbus_message_has_destination/_has_sender', file='dbus/dbus-message.c', status='stub', note='contract: field present and textually equal to the argument'),
+    dict(name='bus_registry_lookup, bus_service_owner_in_queue', file='bus/services.c', status='stub',
+         note='contract over a ghost map of 4 names -> (exists, peer is primary or queued owner); the hash table is never executed'),
+    dict(name='bus_connection_is_queued_owner_by_prefix', file='bus/connection.c', status='stub',
+         note='contract: peer owns (primary or queued) a name in the namespace of the prefix; enforced on the real function by C06.owner_by_prefix'),
+    dict(name='_dbus_list_get_first_link', file=LIST, status='inlined', note='real code'),
+    dict(name='_dbus_string_init_const, _dbus_string_equal_c_str, _dbus_string_starts_with_c_str, _dbus_string_starts_with_words_c_str', file=STR, status='inlined', note='real code'),
+]
+RULE_ASSUME = [
+    'rule fields correspond to the config-file attributes as append_rule_from_element/bus_policy_rule_new set them ("*" or absent -> NULL / DBUS_MESSAGE_TYPE_INVALID / TRISTATE_ANY; min_fds,max_fds in [0, DBUS_MAXIMUM_MESSAGE_UNIX_FDS]; *_prefix implies a name) (config-parser.c is not under contract)',
+    'message facts: n_fds <= DBUS_MAXIMUM_MESSAGE_UNIX_FDS, METHOD_RETURN/ERROR carry REPLY_SERIAL != 0 (message validation, C01)',
+    'model M1: a peer that is not a connection (bus driver; service about to be activated) owns exactly the name written in the message',
+    'ghost registry: at most 4 names matter; peer in queue implies the name exists',
+]
+WHAT = {0: ('send', 'bus_client_policy_check_can_send'), 1: ('recv', 'bus_client_policy_check_can_receive'), 2: ('own', 'bus_client_policy_check_can_own + bus_rules_check_can_own')}
+
+
+def rules(what, n, gap=0, tier='quick', expect_s=30, timeout=900):
+    nm, fn = WHAT[what]
+    name = 'C06.%s_n%d' % (nm, n) + ('' if not gap else '.gapG%d' % gap)
+    UNITS.append(dict(
+        name=name, props=['C06'] + (['C09'] if what != 2 else []), kind='B', route='plain', bus=True, tier=tier,
+        tus=[dict(file=POL, include_as='VERIF_TU'), dict(file=LIST), dict(file=STR)], harness='harness/c06_rules.c',
+        defines=['VERIF_WHAT=%d' % what, 'VERIF_N=%d' % n, 'VERIF_GAP=%d' % gap, 'SPEC_STR_MAX=6'], unwind=7, timeout=timeout, expect_s=expect_s,
+        must_have=(['post1', 'post3'] if not gap else ['gapG%d' % gap]),
+        bounds={'rules': n, 'strings': 'attribute and header values drawn from the literals "a.b", "a.b.c", "a.bc", "a.c" or absent',
+                'registry_names': 4, 'note': 'every rule attribute symbolic (type, allow/deny, 5 strings, prefix flag, broadcast tristate, eavesdrop, requested_reply, min/max fds); all message facts symbolic'},
+        functions=[dict(name=fn, file=POL, status='bounded',
+                        contract=('decision == last matching rule per dbus-daemon(1), default deny; toggles == number of matching rules; policy unchanged'
+                                  if not gap else 'the man-page/code gap region G%d only (see spec/policy_ref.h); expected red until triaged' % gap))] + RULE_STUBS,
+        assumptions=RULE_ASSUME))
+
+
+rules(0, 1, expect_s=20)
+rules(1, 1, expect_s=20)
+rules(2, 1, expect_s=5)
+rules(0, 3, expect_s=120, timeout=1500)
+rules(1, 3, expect_s=120, timeout=1500)
+rules(2, 3, expect_s=30)
+rules(0, 1, gap=1)
+rules(1, 1, gap=1)
+rules(0, 1, gap=2)
+rules(1, 1, gap=2)
